@@ -21,6 +21,9 @@ CLAIMS = {
  'C04': dict(technique="runtime monitoring: reset asserted in every explored state of generated designs under vsim, compared per clock (and between edges for async resets) with the property's reset rule applied to the CPython-executed reference",
              text="Exploration: generated plain and coroutine contexts x sync/async x both polarities x noreset/no-default objects x step_cond x on_reset routes; reset is an input bit of the joint-state exploration.",
              ref="2 C04"),
+ 'C05': dict(technique="runtime monitoring: full conversion matrix compiled by the real compiler; accepted designs executed by vsim over all source values and compared with the property's decision table (must-reject classes + value rule)",
+             text="Exploration: source type x qualifier x target type x 22 assignment forms (incl. view targets, Null/Full merges, local init, port connections); exhaustive over source values for widths <=3/4.",
+             ref="2 C05"),
  'C08': dict(technique="runtime monitoring: poison sanitizer in vsim (every compiler temporary is poisoned at the start of each process activation, reads are trapped) + independent path-enumeration oracle for must-reject placements",
              text="Exploration: every definition/use placement over small if/match/for-break skeletons incl. coroutine state crossings (small scope, exhaustive in thorough tier) and the C01/C03/C04 generators under the poison monitor.",
              ref="2 C08"),
